@@ -498,3 +498,62 @@ def block_tables(rnd):
     except Exception as e:    # noqa
         return f"{desc}: the module does not survive a protobuf round trip ({type(e).__name__}: {str(e)[:80]})"
     return None
+
+
+def retarget_and_delete(rnd):
+    """The usual way to replace a symbol: retarget_symbol_uses(old, new) and delete_symbol(old) in one context.  After apply() the old
+    symbol is gone and every former mention -- instruction operand, data word, CFI personality, symbolForwarding value -- names the
+    new symbol; nothing is dropped, and no SymbolUsesRemainingError is raised (no use remains once the retarget is done).
+    Returns a violation text or None."""
+    import gtirb_rewriting
+    import gtirb_rewriting._auxdata as _auxdata
+    from gtirb_test_helpers import add_code_block, add_data_block, add_data_section, add_symbol, add_text_section, create_test_module
+    ir, m = create_test_module(gtirb.Module.FileFormat.ELF, gtirb.Module.ISA.X64)
+    _, bi = add_text_section(m, address=0x1000)
+    _, dbi = add_data_section(m, address=0x4000)
+    d1 = add_data_block(dbi, b"\0" * 8)
+    d2 = add_data_block(dbi, b"\0" * 8)
+    old = add_symbol(m, "old", d1)
+    new = add_symbol(m, "new", d2)
+    uses = {k: rnd.random() < 0.6 for k in ("insn", "word", "cfi", "fwd")}
+    if not any(uses.values()):
+        uses["insn"] = True
+    code = add_code_block(bi, b"\x48\x8d\x05\0\0\0\0\xc3", {(3, 4): gtirb.SymAddrConst(0, old if uses["insn"] else new)})
+    add_symbol(m, "f", code)
+    word = add_data_block(dbi, b"\0" * 8, {(0, 8): gtirb.SymAddrConst(4, old if uses["word"] else new)})
+    tab = _auxdata.cfi_directives.get_or_insert(m)
+    tab[gtirb.Offset(code, 0)] = [(".cfi_startproc", [], _auxdata.NULL_UUID), (".cfi_personality", [0x9b], old if uses["cfi"] else new)]
+    tab[gtirb.Offset(code, 8)] = [(".cfi_endproc", [], _auxdata.NULL_UUID)]
+    alias = add_symbol(m, "alias")
+    _auxdata.symbol_forwarding.get_or_insert(m)[alias] = old if uses["fwd"] else new
+    force = rnd.random() < 0.5
+    ctx = gtirb_rewriting.RewritingContext(m, [])
+    if rnd.random() < 0.5:
+        ctx.retarget_symbol_uses(old, new)
+        ctx.delete_symbol(old, force=force)
+    else:
+        ctx.delete_symbol(old, force=force)
+        ctx.retarget_symbol_uses(old, new)
+    desc = f"old used by {sorted(k for k, v in uses.items() if v)}, retarget_symbol_uses(old, new) and delete_symbol(old, force={force}) in one context"
+    try:
+        ctx.apply()
+    except Exception as e:    # noqa
+        return f"{desc}: apply raises {type(e).__name__}"
+    if any(s.name == "old" for s in m.symbols):
+        return f"{desc}: old is still in the module"
+    exprs = {}
+    for x in m.byte_intervals:
+        for off, e in x.symbolic_expressions.items():
+            exprs[x.address + off] = e
+    e1, e2 = exprs.get(code.address + 3), exprs.get(word.address)
+    if e1 is None or e1.symbol is not new or e1.offset != 0:
+        return f"{desc}: the instruction operand is {None if e1 is None else e1.symbol.name}, expected new"
+    if e2 is None or e2.symbol is not new or e2.offset != 4:
+        return f"{desc}: the data word is {None if e2 is None else (e2.symbol.name, e2.offset)}, expected new+4"
+    pers = [d for ds in _auxdata.cfi_directives.get(m).values() for d in ds if d[0] == ".cfi_personality"]
+    if len(pers) != 1 or pers[0][2] is not new or pers[0][1] != [0x9b]:
+        return f"{desc}: the personality directive is {[(d[1], getattr(d[2], 'name', d[2])) for d in pers]}, expected [0x9b] new"
+    fw = _auxdata.symbol_forwarding.get(m) or {}
+    if fw.get(alias) is not new:
+        return f"{desc}: symbolForwarding[alias] is {getattr(fw.get(alias), 'name', fw.get(alias))}, expected new"
+    return None
